@@ -52,6 +52,11 @@ func runC14(c *Ctx) {
 						sc.Pre.IR.Hi = uint8(iv)
 					}
 					sc.Pre.IFF2 = iff2 == 1
+					// LD A,I / LD A,R are how a handler reads IFF2 while INT stays asserted:
+					// half of their cases run with a refused maskable request pending
+					if enc.Table == ref.TED && (enc.Op == 0x57 || enc.Op == 0x5f) && (r0+k)%2 == 0 {
+						sc.PendingRefused = true
+					}
 					o := rig.Run(&sc)
 					lev++
 					// direct rule, independent of the model's own counting
@@ -251,7 +256,7 @@ func runC14(c *Ctx) {
 					if cpu.IR.Lo&0x80 != pre.IR.Lo&0x80 || cpu.IR.Hi != pre.IR.Hi || d > 2 {
 						c.R.Violation(fmt.Sprintf("C14/acceptance/kind%d", kind), map[string]interface{}{
 							"what": "interrupt acceptance changed bit 7 of R or I, or moved the refresh counter by more than two fetches",
-							"pre": DumpState(&pre, false), "post": DumpState(&cpu.States, cpu.HALT), "request_data": HexBytes(it.Data), "nmi": kind == 0})
+							"pre":  DumpState(&pre, false), "post": DumpState(&cpu.States, cpu.HALT), "request_data": HexBytes(it.Data), "nmi": kind == 0})
 					}
 					distinct.Add(mon.Hash(0xacc, uint64(r0), uint64(kind), uint64(rep)))
 				}
